@@ -1106,6 +1106,23 @@ func genBigPkts(r *Rng, c *Ctx) []mpkt {
 			c.Stat("big:bad")
 		}
 	}
+	// the table is now exactly at its cap: known names announce again (other spelling, sometimes
+	// another address) — nothing new is inserted, so nothing may be evicted
+	for k := 0; k < 6; k++ {
+		j := total - 1 - r.Intn(capN-1)
+		p := one(j)
+		switch r.Intn(3) {
+		case 0:
+			p.recs[0].name = strings.ToUpper(p.recs[0].name)
+		case 1:
+			p.recs[0].name = strings.ToUpper(p.recs[0].name[:1]) + p.recs[0].name[1:]
+		}
+		if r.Chance(40) {
+			p.recs[0].addr = fmt.Sprintf("10.7.7.%d", k)
+		}
+		ps = append(ps, p)
+		c.Stat("big:refresh-at-cap")
+	}
 	c.Stat("big:sequences")
 	return ps
 }
